@@ -530,7 +530,10 @@ class expandafter(Command):
         if isinstance(aftertok, Macro):
             expanded = aftertok.invoke(tex)
 
-        expanded = expanded or [aftertok]
+        # None means that the macro itself goes to the output; an empty list
+        # is an expansion to nothing (an empty macro, a conditional)
+        if expanded is None:
+            expanded = [aftertok]
 
         return [nexttok] + expanded
 
